@@ -14,6 +14,18 @@ CHECKS = {
  "C08": ("exploration", "generated race reports vs abstract ground truth (field-by-field oracle), negative variant with unknown goroutine id, remainder accounting after the closing separator",
          "Reports printed by a model of tsan's Go report printer are parsed by the real ScanSnapshot and compared with the abstract report; the text after the closing separator must come back as remainder; a creation section for an unknown goroutine must be an error and must not be attributed to another goroutine. Held on the reports explored.",
          "Trusts the generator's reading of tsan_report.cpp (Go branch).", "4/C08"),
+ "C03": ("exploration", "crash/hang net over child-process batches (recover + process-death detection + progress watchdog) on grammar-aware mutated inputs, exhaustive bounded line-kind sequences, pp exit-status monitor, allocation-volume scaling monitor",
+         "Mutated dumps/reports/streams and all bounded line-kind sequences go through the whole pipeline (repeated scanning to exhaustion with a strict-progress assertion, 4 aggregation levels, both HTML renderings, path guessing and source analysis on) in child processes; the pp binary is run on a sample; linear work is decided by counting Read calls / line scans and by TotalAlloc growth over scaling families. Held on the inputs explored.",
+         "Allocation volume is a proxy for work; the superlinear root-guessing class is a listed known finding.", "4/C03"),
+ "C09": ("exploration", "metamorphic oracle over scripted io.Reader schedules: (snapshot, forwarded bytes, error, remainder++unread) vs the single-Read baseline; all 2^(n-1) chunkings of short inputs, all single/double split points of small dumps",
+         "The scripted reader plays the scheduler: the same bytes are delivered one byte at a time, in fixed and random chunks, with zero-length read runs, with a boundary at every line end +/-2, with EOF attached to the last data; every schedule must give the same 4-tuple as a single Read. Exhaustive for short inputs, sampled otherwise.",
+         "Assumes readers honour the io.Reader contract (sticky error, n <= len(p)).", "4/C09"),
+ "C10": ("fault_enumeration", "every byte offset x 3 failure modes (EOF, sticky error, error with last data) injected by the scripted reader; oracle compares goroutines before the cut with the uncut parse, the error identity and the forwarded-bytes prefix rule; web handler with maxmem below the dump size",
+         "For each generated stream every cut offset and every way of signalling the cut is enumerated and executed on the real code (no sampling within an input); the set of inputs is sampled.",
+         "A cut before a dump's recognition point leaves non-dump text that must be passed through (C02), see DESIGN 4/C10.", "4/C10"),
+ "C11": ("exploration", "streaming monitor on a scripted reader (prefix-writer length sampled at every Read entry = every potential blocking point; no Read after the dump-ending line) with a read-ahead positive control + causal pipe-level monitor on the pp binary",
+         "At every point where the source could block, the bytes already forwarded are compared with the complete non-dump lines delivered so far; the call must return before the next Read once the line ending a dump was delivered. End to end the pp binary is fed piece by piece through pipes with a causal (not temporal) classification. Held on the schedules explored.",
+         "A Read call is the only blocking point of a source; e2e waits are watchdogs only.", "4/C11"),
  "C01": ("exploration", "generated dumps vs abstract ground truth (field-by-field oracle) + live-runtime registry vs runtime.Callers",
          "Every dump printed by a model of the runtime's traceback printer (all 864 format-variant combinations, all symbol/file/argument shapes, lines > 16 KiB) is parsed by the real ScanSnapshot and compared field by field with the abstract dump it was printed from; live rounds compare the running process's own dump with a registry built from runtime.Callers. Held-on-what-was-explored; the input space is unbounded.",
          "Trusts the generator's reading of runtime/traceback.go and of the linker's PathToPrefix escaping; 64-bit host.", "4/C01"),
